@@ -389,6 +389,13 @@ func stallScenarios(thorough bool) []scenario {
 			}
 		}
 	}
+	// every scenario of C10 in which the client does not read (so that an alert write can only end through the context): complete
+	// but refused first records, complete hellos with the context ending as they complete, contexts over before the call
+	for _, sc := range scenarios() {
+		if sc.BlockedWrites {
+			out = append(out, sc)
+		}
+	}
 	// the same hello framed in two records: a stall at every offset of the SECOND record (the first one is complete)
 	for o := firstRecLen; o < len(fragRec); o++ {
 		if !thorough && o > firstRecLen+8 && o < len(fragRec)-4 && o%11 != 0 {
@@ -523,6 +530,6 @@ func Run(r *ev.Run, replay string) {
 // RunDeadline is the deadline clause of C08 (invoked by the C08 check through the instrumented binary).
 func RunDeadline(r *ev.Run) {
 	b := 2
-	r.Rule(fmt.Sprintf("E3: the client delivers the first o bytes of the first record for every offset o (quick: offsets 0..12, the last 6 and every 9th) and then stalls, for the hello in one record and for the same hello framed in two records (offsets in the second record); the context has a deadline at t=2 or is cancelled at t=1; the client transport either accepts writes or never does (peer not reading); all schedules with at most %d deviations; NewConn must return an error no later than the end of the context and no thread may stay blocked. distinct = distinct scenarios", b))
+	r.Rule(fmt.Sprintf("E3: the client delivers the first o bytes of the first record for every offset o (quick: offsets 0..12, the last 6 and every 9th) and then stalls, for the hello in one record and for the same hello framed in two records (offsets in the second record); plus every C10 scenario whose client never reads (refused first records, hellos completing as the context ends); the context has a deadline at t=2 or is cancelled at t=1; the client transport either accepts writes or never does (peer not reading); all schedules with at most %d deviations; NewConn must return an error no later than the end of the context and no thread may stay blocked. distinct = distinct scenarios", b))
 	explore(r, stallScenarios(r.Thorough()), b, "c08-deadline")
 }
